@@ -23,6 +23,21 @@ def sh(cmd, cwd=None, env=None, timeout=None):
     except subprocess.TimeoutExpired as e:
         return 124, (e.stdout or "") if isinstance(e.stdout, str) else ""
 
+# the checks tried first for a file (at most three: a surviving mutant costs every listed check)
+PRIMARY = {
+    "flow.go": ["C01", "C08", "C07"], "activity.go": ["C10", "C01", "C07"], "task_generic.go": ["C08", "C10", "C07"],
+    "process.go": ["C02", "C11", "C07"], "subprocess.go": ["C12", "C07", "C10"], "gateway_exclusive.go": ["C04", "C01"],
+    "gateway_inclusive.go": ["C05", "C01"], "gateway_event_based.go": ["C06", "C17"], "gateway_parallel.go": ["C03", "C01"],
+    "gateway.go": ["C03", "C05"], "event_catch.go": ["C11", "C06", "C13"], "event_start.go": ["C11", "C14", "C01"],
+    "event_end.go": ["C01", "C07"], "event_throw.go": ["C11", "C07"], "pkg/tracing/tracer.go": ["C09", "C07", "C02"],
+    "pkg/tracing/retry.go": ["C09", "C18"], "process_set.go": ["C18", "C07"], "pkg/timer/timer.go": ["C13", "C07"],
+    "pkg/timer/event.go": ["C13", "C07"], "pkg/data/impl.go": ["C16", "C08", "C17"], "pkg/data/container.go": ["C16", "C17"],
+    "schema/builder.go": ["C19"], "schema/schema_item.go": ["C16", "C15"], "schema/schema.go": ["C15", "C19"],
+    "sequence_flow.go": ["C01", "C04"], "flow_wiring.go": ["C01", "C10"], "flow_mapping.go": ["C01"], "flow_node.go": ["C01"],
+    "flow_action.go": ["C01", "C06"], "engine.go": ["C18", "C01"], "pkg/event/fanout.go": ["C11", "C13"],
+}
+
+
 def anchors():
     m = collections.defaultdict(list)
     for l in open(os.path.join(ROOT, "properties.jsonl")):
@@ -84,7 +99,7 @@ def main():
                     rc1, o1 = sh("go test -vet=off -count=1 -timeout 120s ./...", cwd=wt, timeout=400)
                 rec["tests"] = "pass" if rc1 == 0 and rc2 == 0 else "fail"
             if rec["tests"] == "pass":
-                props = a.props.split(",") if a.props else anc.get(f, [])
+                props = a.props.split(",") if a.props else PRIMARY.get(f, anc.get(f, [])[:3])
                 caught = False
                 for p in props:
                     t0 = time.time()
